@@ -1097,7 +1097,7 @@ def main():
     t0 = time.time()
     budget = float(os.environ.get('VERIF_BUDGET_S', 36 if tier == 'quick' else 780))   # wall-clock guard; sub-trees not reached are counted
     deadline = t0 + budget
-    tmpdir = tempfile.mkdtemp(prefix='pytough-', dir='/var/tmp')
+    tmpdir = tempfile.mkdtemp(prefix='pytough-', dir=os.environ.get('PYTOUGH_SCRATCH', '/var/tmp'))
     rnd = random.Random(seed)
     try:
         tasks = make_tasks(tier, seed, deadline, tmpdir)
